@@ -2,11 +2,13 @@
 
 Node      plain Persistent subclass                      -> referenced as (oid, class)
 NodeNA    class with constructor arguments               -> referenced by bare oid, record meta (class, args)
-c14_gone  a module that exists only in sys.modules; `hide_gone()` makes its classes unimportable, so
-          records written with them load as ZODB.broken.PersistentBroken placeholders.
+c14_gone  a module (c14_gone_src/c14_gone.py, not on sys.path) imported once by path; `hide_gone()` makes
+          its classes unimportable, so records written with them load as ZODB.broken.PersistentBroken
+          placeholders; `importable_gone()` makes it importable again without importing it.
 """
+import importlib
+import os
 import sys
-import types
 import weakref
 
 from persistent import Persistent
@@ -29,34 +31,37 @@ class NodeNA(Persistent):
         return self.__dict__.get('_v_na', ())
 
 
-_gone = types.ModuleType('c14_gone')
-
-
-class Gone(Persistent):
-    pass
-
-
-class GoneNA(Persistent):
-    def __new__(cls, *args):
-        self = Persistent.__new__(cls)
-        NEW_ARGS[self] = args
-        return self
-
-    def __getnewargs__(self):
-        return self.__dict__.get('_v_na', ())
-
-
-for _c in (Gone, GoneNA):
-    _c.__module__ = 'c14_gone'
-    setattr(_gone, _c.__name__, _c)
+GONE_DIR = os.path.join(os.path.dirname(os.path.abspath(__file__)), 'c14_gone_src')
+sys.path.insert(0, GONE_DIR)
+try:
+    import c14_gone as _gone        # noqa: E402  (needs NEW_ARGS above)
+finally:
+    sys.path.remove(GONE_DIR)
+Gone, GoneNA = _gone.Gone, _gone.GoneNA
 
 
 def show_gone():
+    """the classes are imported (the module object all test objects were made from)"""
+    if GONE_DIR in sys.path:
+        sys.path.remove(GONE_DIR)
     sys.modules['c14_gone'] = _gone
+    importlib.invalidate_caches()
 
 
 def hide_gone():
+    """the classes cannot be imported"""
+    if GONE_DIR in sys.path:
+        sys.path.remove(GONE_DIR)
     sys.modules.pop('c14_gone', None)
+    importlib.invalidate_caches()
+
+
+def importable_gone():
+    """the module can be imported again, but nobody has imported it yet"""
+    sys.modules.pop('c14_gone', None)
+    if GONE_DIR not in sys.path:
+        sys.path.insert(0, GONE_DIR)
+    importlib.invalidate_caches()
 
 
 show_gone()
